@@ -116,8 +116,15 @@ def scenario_for(seed, index, tier, _depth=0, _proto=None):
                     s_[1] = m_
                     s_[2] = 'ch:%d' % m_
         logins.append(second)
+    via = 'user'
+    if len(logins) == 2 and logins[0]['disc'] is not None and \
+            rng.random() < 0.5:
+        # the first attempt is rejected; the exception handler itself calls
+        # connect() again (no user-level disconnect() in between)
+        via = 'handler'
     return {
         'proto': proto, 'logins': logins, 'auth': auth, 'join_reply': join,
+        'second_via': via,
         'user_plugin_listener': bool(user_plugin),
         'server': {'conns': [{'login': lg['steps'], 'play': play}
                              for lg in logins]},
@@ -164,10 +171,17 @@ def execute(scenario, tape):
 
         def cur():
             return st['L'][st['cur']]
+        def on_exc(e, i):
+            cur()['errs'].append(e)
+            if scenario.get('second_via') == 'handler' and st['cur'] == 0:
+                st['L'][0]['req_to'] = len(svc.requests)
+                st['cur'] = 1
+                st['L'][1]['req_from'] = len(svc.requests)
+                st['handler_reconnect'] = True
+                conn.connect()
         conn = Connection('sim.example', 25565,
                           allowed_versions=[scenario['proto']],
-                          handle_exception=lambda e, i:
-                          cur()['errs'].append(e),
+                          handle_exception=on_exc,
                           handle_exit=lambda: cur()['exits'].append(1), **kw)
         w.conn = conn
 
@@ -186,14 +200,19 @@ def execute(scenario, tape):
                 on_plugin, clientbound.login.PluginRequestPacket, early=True)
 
         def user():
+            handler = scenario.get('second_via') == 'handler'
             for k in range(n):
-                st['cur'] = k
-                st['L'][k]['req_from'] = len(svc.requests)
-                st['L'][k]['connect'] = w.api('connect', conn.connect)
+                if k == 0 or not handler:
+                    st['cur'] = k
+                    st['L'][k]['req_from'] = len(svc.requests)
+                    st['L'][k]['connect'] = w.api('connect', conn.connect)
                 st['L'][k]['quiet'] = w.wait_until(
                     lambda: common.all_net_done(w.sim) and
-                    (st['L'][k]['exits'] or st['L'][k]['errs']), 60000000)
-                st['L'][k]['req_to'] = len(svc.requests)
+                    (st['L'][k]['exits'] or st['L'][k]['errs']) and
+                    (not handler or st['cur'] == n - 1 or k == n - 1),
+                    60000000)
+                if 'req_to' not in st['L'][k]:
+                    st['L'][k]['req_to'] = len(svc.requests)
         w.sim.spawn(user, 'user0')
 
     import minecraft.authentication as A
@@ -255,6 +274,8 @@ def check(scenario, w, st, res):
             return
     if len(scenario['logins']) > 1:
         res.probes['second-login-on-same-connection'] = 1
+        if st.get('handler_reconnect'):
+            res.probes['second-login-from-exception-handler'] = 1
 
 
 def check_login(scenario, w, st, res, ids, k, lg, ob):
@@ -446,6 +467,7 @@ def shrink_scenario(sc):
             c = copy.deepcopy(sc)
             c['logins'] = [c['logins'][keep]]
             c['server']['conns'] = [c['server']['conns'][keep]]
+            c['second_via'] = 'user'
             yield c
     for k, lg in enumerate(sc['logins']):
         for j in range(len(lg['steps']) - 1):
